@@ -16,7 +16,7 @@ import typing
 
 import numpy
 
-from vector._compute.lorentz import Et2, t
+from vector._compute.lorentz import t
 from vector._methods import (
     AzimuthalRhoPhi,
     AzimuthalXY,
@@ -34,7 +34,8 @@ from vector._methods import (
 
 
 def xy_z_t(lib, x, y, z, t):
-    return lib.sqrt(Et2.xy_z_t(lib, x, y, z, t))
+    pt2 = x**2 + y**2
+    return t * lib.sqrt(pt2) / lib.sqrt(pt2 + z**2)
 
 
 def xy_z_tau(lib, x, y, z, tau):
